@@ -6,6 +6,9 @@
 id=$1; x=$2; out=${3:-/tmp/seedout${SEEDROUND:-}-$id/$x}
 [ "${SEEDROUND:-}" = 1 ] && out=${3:-/tmp/seedout-$id/$x}
 export GOFLAGS=-mod=mod GOPROXY=off GOSUMDB=off GOTOOLCHAIN=local
+# a build cache of its own (the scratch copy's path is unique, nothing would be reused), removed at the end
+export GOCACHE=$(mktemp -d /tmp/vseed-cache-XXXXXX)
+trap 'rm -rf "$GOCACHE"' EXIT
 d=$(mktemp -d /tmp/vseed-XXXXXX)
 rsync -a --exclude .git /repo/ "$d/"
 pkg=$(grep -m1 '^package ' "$out/demo_test.go" | awk '{print $2}' | sed 's/_test$//')
